@@ -24,14 +24,14 @@ ASSUMPTIONS = ["cron schedules excluded (croniter not installed)", "grids, not a
 US = timedelta(microseconds=1)
 
 
-def retry_jobs():
-    vals = [1, 2, 10, 86400, 10 ** 9]
+def retry_jobs(tier="quick"):
+    vals = [1, 2, 10, 86400, 10 ** 9] if tier == "quick" else [0, 1, 2, 3, 10, 60, 86400, 86401, 10 ** 6, 10 ** 9]
     out = []
     for mn, mx in itertools.product(vals, vals):
         if mn > mx:
             continue
-        for mult in (1, 5, 10 ** 6):
-            for me in (0, 1, 15, 64, 4096):
+        for mult in (1, 5, 10 ** 6) if tier == "quick" else (0, 1, 2, 3, 5, 7, 10 ** 3, 10 ** 6):
+            for me in (0, 1, 15, 64, 4096) if tier == "quick" else (0, 1, 2, 3, 15, 16, 63, 64, 1023, 1024, 4096):
                 out.append(dict(t="retry", mn=mn, mx=mx, mult=mult, me=me))
     return out
 
@@ -60,13 +60,16 @@ def run_retry(c, acc):
     acc.outcomes.add(digest(["retry", c, sorted(seen)]))
 
 
-PERIODS = [timedelta(seconds=1), timedelta(seconds=1, microseconds=1), timedelta(seconds=2.5), timedelta(hours=1)]
+PERIODS = [timedelta(seconds=1), timedelta(seconds=1, microseconds=1), timedelta(seconds=2.5), timedelta(hours=1),
+           # thorough tier only:
+           timedelta(microseconds=1), timedelta(microseconds=7), timedelta(milliseconds=100), timedelta(seconds=0.333333),
+           timedelta(days=1), timedelta(days=7, microseconds=3), timedelta(days=400)]
 
 
-def next_jobs():
+def next_jobs(tier="quick"):
     out = []
-    for pi in range(len(PERIODS)):
-        for k in (-1, 0, 1, 2, 7):
+    for pi in range(4 if tier == "quick" else len(PERIODS)):
+        for k in (-1, 0, 1, 2, 7) if tier == "quick" else (-2, -1, 0, 1, 2, 3, 7, 1000, 10 ** 6 + 1):
             for du in ("none", "past", "now", "future"):
                 for base in ("timestamp", "next", "delay_until"):
                     out.append(dict(t="next", p=pi, k=k, du=du, base=base))
@@ -78,10 +81,14 @@ def run_next(c, acc):
     t0 = datetime(2001, 9, 9, 12, 0, 0)
     offs = [c["k"] * p + i * US for i in range(-3, 4)] + [c["k"] * p + p / 2, c["k"] * p + p / 3]
     for off in offs:
-        now = t0 + off
+        try:
+            now = t0 + off
+            now + 2 * p  # results beyond year 9999 are outside the grid
+        except OverflowError:
+            continue
         # pin the clock
         CLOCK.reset(None)
-        CLOCK.offset_ns = round((now - CLOCK.now()).total_seconds() * 1e6) * 1000
+        CLOCK.offset_ns = ((now - CLOCK.now()) // US) * 1000  # integer arithmetic: exact for far-away instants
         if CLOCK.now() != now:
             yield ("harness", f"could not pin the clock to {now}")
             return
@@ -176,7 +183,7 @@ def run_overdue(c, acc):
 
 
 def jobs(tier):
-    cs = retry_jobs() + next_jobs() + overdue_jobs()
+    cs = retry_jobs(tier) + next_jobs(tier) + overdue_jobs()
     n = 40
     return [dict(cases=cs[i:i + n]) for i in range(0, len(cs), n)]
 
